@@ -229,3 +229,53 @@ def run(cx):
               "fields selected on the abstract type next to the fragments (which the operation requests and the "
               "normalization AST stores) are missing from every variant", r.loc(t.line))
 
+    # ---- R27.nullable-consulted: every printer of a type annotation looks at `nullable` of a union -------------
+    nullable_consulted(cx, fb)
+
+
+def nullable_consulted(cx, fb):
+    """A union type annotation carries `nullable`; the provided value is null exactly when it is set.  In every
+    TypeScript type printer that matches on TypeAnnotationDeclaration, each path through the Union arm to a return
+    must read `nullable` of that union (or hand the whole union to a callee): a path that never looks at it prints
+    the same text for `[T]` and `[T]!`, so one of them is described wrongly.  Necessary condition only."""
+    n = 0
+    for g in sorted(fb.fns.values(), key=lambda g: g.id):
+        if not g.id.startswith("artifact_content::"):
+            continue
+        for sw in discr_switches(g):
+            if not (sw["adt"] or "").endswith("TypeAnnotationDeclaration") or "Union" not in sw["arms"]:
+                continue
+            if sw["arms"].get("Union") == sw["arms"].get("Scalar"):
+                continue  # wildcard arm: the function does not distinguish unions here
+            # does this function print? (it or its callees push to a String / format)
+            if not any(re.search(r"push_str$|::push$|fmt::format$|write_str$|write_fmt$", t.callee or "") for h in fb.with_closures(g) for t in h.calls()):
+                continue
+            n += 1
+            is_union = lambda l: "UnionTypeAnnotationDeclaration" in g.local_ty(l)
+            ev = set()
+            for blk in g.blocks:
+                hit = False
+                for s in blk.stmts:
+                    pls = [s.place] if s.place is not None else []
+                    pls += [op_place(o) for o in (s.ops or []) if op_place(o) is not None]
+                    for pl in pls:
+                        if "nullable" in pl.fields() and is_union(pl.local):
+                            hit = True
+                t = blk.term
+                if t.op == "switch":
+                    pl = op_place(t.j["discr"])
+                    if pl is not None and "nullable" in pl.fields() and is_union(pl.local):
+                        hit = True
+                if t.op == "call":
+                    for a in t.arg_places():
+                        if a is not None and not a.fields() and is_union(a.local):
+                            hit = True  # the whole union is handed to a callee
+                if hit:
+                    ev.add(blk.i)
+            rets = [b.i for b in g.blocks if b.term.op == "return"]
+            p = path_without(g, sw["arms"]["Union"], rets, ev)
+            cx.ob("R27.nullable-consulted", "%s|union-arm-reads-nullable" % g.id, p is None,
+                  "a path through the Union arm of this type printer returns without looking at `nullable` of the "
+                  "union (%s): a nullable and a non-null annotation of that shape get the same TypeScript type, while "
+                  "the reader provides null for one of them" % (fmt_path(g, p) if p else ""), g.loc())
+    cx.floor("R27.nullable-consulted type printers matching on TypeAnnotationDeclaration", n, 2)
